@@ -50,11 +50,14 @@ fn client_heartbeat_times(h: &Handle) -> Vec<Instant> {
     })
 }
 
-pub fn run_pattern(hsecs: u16, p: Pattern, res: &mut CaseResult) {
+/// `hsecs` is the negotiated interval (the smaller of the client's option and the server's
+/// offer); `extra` = (added to the client's option, added to the server's offer), at most one
+/// of them non-zero, so that the negotiated value differs from one side's own number.
+pub fn run_pattern(hsecs: u16, extra: (u16, u16), p: Pattern, res: &mut CaseResult) {
     let hd = Duration::from_secs(hsecs as u64);
     let mut reflex = Reflex::default();
-    reflex.tune = (2047, 131072, hsecs);
-    let (conn, h) = session::open_with(reflex, session::default_opts().heartbeat(hsecs), ConnectionTuning::default(), |_| {});
+    reflex.tune = (2047, 131072, hsecs + extra.1);
+    let (conn, h) = session::open_with(reflex, session::default_opts().heartbeat(hsecs + extra.0), ConnectionTuning::default(), |_| {});
     let mut conn = match conn {
         Ok(c) => c,
         Err(e) => {
@@ -263,7 +266,7 @@ pub fn run(rc: &mut RunCtx) {
         }
     }
     cases.push((0, Pattern::Disabled));
-    let reps = rc.n(2, 4);
+    let reps = rc.n(3, 6);
     let mut r = Rng::for_case(rc.seed, 17, 0);
     for rep in 0..reps {
         for (hh, p) in &cases {
@@ -275,8 +278,15 @@ pub fn run(rc: &mut RunCtx) {
             let mut res = CaseResult::new(id);
             // desynchronise the cases a little
             std::thread::sleep(Duration::from_millis(r.range(0, 90)));
-            run_pattern(*hh, *p, &mut res);
-            res.sample = Some(json!({"heartbeat": hh, "pattern": format!("{:?}", p)}));
+            // which side asked for more than what was negotiated: nobody, the client, the server
+            let extra = match rep % 3 {
+                0 => (0, 0),
+                1 => (29, 0),
+                _ => (0, 7),
+            };
+            run_pattern(*hh, extra, *p, &mut res);
+            res.tags.insert(format!("client+{}/server+{}", extra.0, extra.1));
+            res.sample = Some(json!({"negotiated_heartbeat": hh, "client_option": hh + extra.0, "server_offer": hh + extra.1, "pattern": format!("{:?}", p)}));
             rc.end(res);
         }
     }
